@@ -238,7 +238,7 @@ func cmp08(J, D *jsonv.Node, in *gen.Intent, s *gen.Settings) error {
 			return fmt.Errorf("embedded JSON not verbatim: json %s, decoded binary %s", clipJ(J.Raw), clipJ(D.Raw))
 		}
 	case gen.IIface:
-		if _, es := gen.RefIface(in.V); es != "" {
+		if _, es := gen.RefIfaceS(in.V, s); es != "" {
 			if J.Kind != jsonv.String || D.Kind != jsonv.String || J.Str != D.Str {
 				return fmt.Errorf("marshal error text: json %s, decoded binary %s", clipJ(J.Raw), clipJ(D.Raw))
 			}
